@@ -51,6 +51,10 @@ CHECKS['C06'] = dict(engine='progenum', category='exploration', section='3/C06',
    technique='bounded-exhaustive enumeration of hostile requests in crash-isolated worker processes; a worker death is attributed to the exact request and classified by panic message and first grip frame',
    text='Every statement sequence of length <=3 over 4 starts and ~150 hostile step instances (condition values of every JSON kind for every operator, inputs of the index-start rewrite, undefined marks, empty/duplicate/degenerate aggregations over empty, non-numeric and malformed fields, negative and inverted ranges, null-producing moves followed by every step, set/increment/mark/jump, malformed jsonpath keys, empty sub-messages) on an empty and two populated graphs through the production compiler and pipeline; every BulkAdd stream up to length 2 (3 thorough) over 4 element kinds x {existing, missing, schema, empty} graph names and 17 unary requests per graph name through the real GripServer handlers. The only oracle: the process survives and the call returns.',
    note='A request that does not return within the deadline is logged as undecided (C07 decides termination). Requests that extend an already crashing request, or contain a step instance that crashed 3 requests, are skipped and counted.')
+CHECKS['C19'] = dict(engine='progenum', category='exploration', section='3/C19',
+   technique='bounded-exhaustive enumeration of all multisets of field values up to a size bound x aggregation instances and pairs, run through the production pipeline and compared with a direct computation over the same rows',
+   text='All multisets of size <=3 (quick, 286) / <=4 (thorough, 1001) over {missing, 1, 2.5, -3, 0, two strings, boolean, list, map} stored one vertex per value; V().aggregate() with count, term (size 0/1/2), histogram (interval 1/2/5), percentile ([0,25,50,100]), field($._data), type, each alone and all 45 pairs in one step. Count, term frequencies and size limiting (counts of the kept buckets = the top counts), histogram alignment/coverage/sum, field key counts, NUMERIC/STRING type counts, percentile monotonicity and range, and independence of each result from its companion are checked as the property states them.',
+   note='Percentile values themselves are not compared (t-digest approximation); under ties only the counts of size-limited term buckets are compared. Runs in crash-isolated workers.')
 NA_REASON = 'check not built yet in this session (planned in DESIGN.md section 3); nothing is claimed for it'
 
 m = {
